@@ -69,6 +69,21 @@ theorem fires_eq_violates (d : Doc) (r : Rule) : fires d r = violates d r := by
   case E1606 => exact fires_E1606 d
   case E1607 => exact fires_E1607 d
 
+/-- **E1601–E1607 over the objective tree**: what the rule functions compute on the flattened list
+    (`get_objectives_flattened`: set size vs list length, `any`, filtered count) is stated by the number of
+    leaves of each kind in the tree, wherever the leaf sits (top level or inside a `multi-objective`) -/
+theorem e160x_objective_tree (os : List Obj) :
+    (e1601 os = allKinds.any (fun k => decide (1 < leafCount k os)))
+    ∧ (e1602 os = costKinds.all (fun k => leafCount k os == 0))
+    ∧ (e1606 os = decide (1 < (costKinds.map (fun k => leafCount k os)).sum))
+    ∧ ((flatten os).any (· == .maxValue) = decide (0 < leafCount .maxValue os))
+    ∧ ((flatten os).any (· == .tourOrder) = decide (0 < leafCount .tourOrder os)) := by
+  refine ⟨e1601_iff os, ?_, ?_, ?_, ?_⟩
+  · simp only [e1602, any_isCost_iff, Bool.not_not, leafCount_eq_count]
+  · simp only [e1606, filter_isCost_length, leafCount_eq_count]
+  · simp only [any_beq_iff_count, leafCount_eq_count]
+  · simp only [any_beq_iff_count, leafCount_eq_count]
+
 theorem mem_all (r : Rule) : r ∈ Rule.all := by
   cases r <;> simp [Rule.all]
 
